@@ -129,7 +129,7 @@ def gen_cfg(rs, lp_kind, np_kind, labels="int", n_arms=None, deterministic=False
     arms = list(LABELS[labels][:n_arms])
     # hostile reward magnitudes: one class per configuration, never for linear policies (their comparisons carry a relative
     # tolerance that assumes rewards of order one)
-    stress = int(pick(rs, [0, 1, 2, 3, 4, 5])) if (rs.integers(5) == 0 and lp_kind not in LIN_KINDS) else None
+    stress = int(pick(rs, [0, 1, 2, 3, 4, 5, 6, 7])) if (rs.integers(5) == 0 and lp_kind not in LIN_KINDS) else None
     # the caller's habitual container for contexts (a quarter of the histories have one)
     house = pick(rs, ["series", "series", "narrow", "frame", "list", "i8", "f4", "fortran"]) if rs.integers(4) == 0 else None
     lp = gen_lp(rs, lp_kind, deterministic, binarizer)
@@ -236,6 +236,11 @@ def gen_rewards(rs, n, kind, stress=None):
     if kind in ("nonneg", "dyadic") and stress is not None:
         mode = int(stress)
         base = gen_rewards(rs, n, kind)
+        if mode >= 6:
+            # astronomically large magnitudes (costs booked as negative rewards in the smallest unit): mode 6 every value
+            # <= -2^70 (below any finite 'minus infinity' stand-in such as -sys.maxsize), mode 7 x 2^70; powers of two keep
+            # the sums exact
+            return [-(2.0 ** 70) * (1.0 + abs(v)) for v in base] if (kind == "dyadic" and mode == 6) else [v * 2.0 ** 70 for v in base]
         if mode >= 4:
             # near-equal but different values: a large offset plus a small exactly representable part (mode 5: negated)
             return [2.0 ** 33 + v for v in base] if (kind == "nonneg" or mode == 4) else [-(2.0 ** 33 + v) for v in base]
@@ -412,6 +417,11 @@ def apply_op(m, op):
         return None
     if k == "cold_arms":
         return canon(m.cold_arms)
+    if k == "policies":
+        # the public policy objects (function addresses removed: they differ between processes)
+        import re
+        return [re.sub(r" at 0x[0-9a-f]+", "", repr(m.learning_policy)), re.sub(r" at 0x[0-9a-f]+", "", repr(m.neighborhood_policy)),
+                canon(list(m.arms)), repr(m.seed), repr(m.n_jobs), repr(m.backend)]
     if k == "arms":
         return canon(list(m.arms))
     raise ValueError(k)
@@ -584,7 +594,7 @@ def gen_continuation(rs, cfg, sh, n_ops=None, must=("partial_fit", "predict", "p
     ops = gen_ops(rs, cfg, sh, n_ops, CONT_KINDS)
     for k in must:
         ops += gen_ops(rs, cfg, sh, 1, [k])
-    return ops
+    return ops + [{"op": "policies"}]
 
 
 def short(op):
